@@ -631,7 +631,101 @@ func genKvProgs(ctx *Ctx, threads, perThread int, withMany bool) [][]*kvOp {
 	return progs
 }
 
+// kvVersionBurst: G goroutines write their own keys in barrier-aligned rounds (so that the calls really overlap):
+// every successful write must get a version never handed out before — by this storage, to anybody.  (The
+// in-memory backend draws its versions under the store's mutex, the Redis backend in the callers' goroutines.)
+func kvVersionBurst(ctx *Ctx, kind string, g, rounds int) {
+	var st kvs.Storage
+	if kind == "redis" {
+		mr, err := miniredis.Run()
+		if err != nil {
+			return
+		}
+		defer mr.Close()
+		st = kredis.New(&goredis.Options{Addr: mr.Addr()})
+	} else {
+		st = inmem.New()
+	}
+	ctx.R.Case(kind, "burst")
+	ctx.R.Nontrivial("barrier-aligned concurrent writes")
+	vers := make([][]string, g)
+	var wg sync.WaitGroup
+	start := make([]chan struct{}, rounds)
+	for i := range start {
+		start[i] = make(chan struct{})
+	}
+	arrive := make(chan struct{}, g)
+	bg := context.Background()
+	for w := 0; w < g; w++ {
+		wg.Add(1)
+		go func(w int) {
+			defer wg.Done()
+			defer func() {
+				if p := recover(); p != nil {
+					vers[w] = append(vers[w], fmt.Sprintf("panic:%v", p))
+					// keep the barrier going for the others
+					for {
+						arrive <- struct{}{}
+					}
+				}
+			}()
+			key := fmt.Sprintf("k%d", w)
+			for r := 0; r < rounds; r++ {
+				arrive <- struct{}{}
+				<-start[r]
+				rec, err := st.Put(bg, kvs.Record{Key: key, Value: []byte("v")})
+				if err == nil {
+					vers[w] = append(vers[w], rec.Version)
+				}
+			}
+		}(w)
+	}
+	ctx.R.Enter()
+	for r := 0; r < rounds; r++ {
+		for k := 0; k < g; k++ {
+			select {
+			case <-arrive:
+			case <-time.After(10 * time.Second):
+				ctx.R.Quiet("mon C02-documented-outcome", "a concurrent Put did not return within 10 s")
+				ctx.R.Leave()
+				return
+			}
+		}
+		close(start[r])
+	}
+	wg.Wait()
+	ctx.R.Leave()
+	seen := map[string]int{}
+	dups, total := 0, 0
+	example := ""
+	for w := range vers {
+		for _, v := range vers[w] {
+			total++
+			if strings.HasPrefix(v, "panic:") {
+				ctx.R.Quiet("mon C02-documented-outcome", "a concurrent Put panicked: "+v)
+				continue
+			}
+			if o, dup := seen[v]; dup {
+				dups++
+				if example == "" {
+					example = fmt.Sprintf("version %s was handed to the writers of k%d and k%d", v, o, w)
+				}
+			}
+			seen[v] = w
+		}
+	}
+	ctx.R.Op(fmt.Sprintf("burst %d %d", g, rounds), "ok")
+	if dups > 0 {
+		ctx.R.Quiet("mon C02-fresh-version", fmt.Sprintf("%d of %d successful concurrent writes got a version that had been handed out before (%s)", dups, total, example))
+	}
+}
+
 func runKvConc(ctx *Ctx, kind string) {
+	if ctx.Thorough {
+		kvVersionBurst(ctx, kind, 8, 6000)
+	} else {
+		kvVersionBurst(ctx, kind, 8, 1200)
+	}
 	n := 400
 	if ctx.Thorough {
 		n = 8000
